@@ -1,5 +1,5 @@
 (* Correspondence cases for C13. *)
-From KV Require Export Yaml.Split Yaml.Annot Fs.PkgWriter.
+From KV Require Export Yaml.Split Yaml.Annot Yaml.Stream Fs.PkgWriter.
 
 Definition oclass_eqb13 (a b : oclass) : bool :=
   match a, b with
@@ -29,6 +29,10 @@ Inductive case13 :=
 (* Read, then a sequence of Writes on one LocalPackageReadWriter: per step the path annotations written,
    whether the Write was accepted, and the set of paths handed to RemoveAll *)
 | P_seq (pkg : string) (files : list string) (steps : list (list string)) (obs : list (oclass * list string))
+(* the text-level round trip with go-yaml as tables: [decs] chunk -> decoded root (None: no document),
+   [encs] cleared node -> its encoding; observed: ByteReader.Read then ByteWriter.Write of the stream *)
+| T_stream (s : string) (decs : list (string * option node)) (encs : list (node * string))
+           (nonstr : list string) (cls : oclass) (out : string)
 | P_write (pkg ann : string) (cls : oclass) (mkdir write : string)  (* LocalPackageWriter, one resource, fresh package *)
 | A_read (index : N) (doc after : node) (nonstr : list string)      (* reader annotations set on a decoded document *)
 | A_pkgread (index : N) (path : string) (doc after : node) (nonstr : list string)  (* … with SetAnnotations = path keys (package reader) *)
@@ -65,6 +69,16 @@ Definition agree13 (c : case13) : bool :=
              end && go rs' os'
          | _, _ => false
          end) (rw_run pkg files steps) obs
+  | T_stream s decs encs ns cls out =>
+      let dec := fun c => match find (fun kv => String.eqb (fst kv) c) decs with
+                          | Some kv => Ok (snd kv) | None => Err end in
+      (* a node missing from the table encodes to a marker, which never equals the observed text *)
+      let enc := fun n => match find (fun kv => node_eqb (fst kv) n) encs with
+                          | Some kv => snd kv | None => "<<no encoding>>" end in
+      match rt_stream (fun x => str_in x ns) dec enc s with
+      | Ok o => oclass_eqb13 cls COk && String.eqb o out
+      | r => oclass_eqb13 cls (class_of r)
+      end
   | P_write pkg ann cls mk wr =>
       match pkg_write1 pkg ann with
       | Ok (d, f) => oclass_eqb13 cls COk && String.eqb d mk && String.eqb f wr
